@@ -328,7 +328,16 @@ fn launch_rdp_thread<S: 'static + Read + Write + Send>(
     bitmap_channel: Sender<BitmapEvent>) -> RdpResult<JoinHandle<()>> {
     // Create the rdp thread
     Ok(thread::spawn(move || {
-        while wait_for_fd(handle as usize) && sync.load(Ordering::Relaxed) {
+        loop {
+            // PDUs the TLS layer has already decrypted (several may share one record)
+            // will never make the socket readable again : read them before waiting
+            let pending = rdp_client.lock().unwrap().pending() > 0;
+            if !pending && !wait_for_fd(handle as usize) {
+                break;
+            }
+            if !sync.load(Ordering::Relaxed) {
+                break;
+            }
             let mut guard = rdp_client.lock().unwrap();
             if let Err(error) = guard.read(|event| {
                 match event {
